@@ -44,6 +44,14 @@ def parseOp (ws : List String) : Option (OpR × Fmt) :=
     | some len, some lines => some (.base (.dropLine len lines), .ret)
     | _, _ => none
   | ["flush"] => some (.base .flush, .ok)
+  | ["yline", len, lines] =>
+    match len.toInt?, lines.toInt? with
+    | some len, some lines => some (.replayLine len lines, .retOptBytes)
+    | _, _ => none
+  | ["wrline", len, lines] =>
+    match len.toInt?, lines.toInt? with
+    | some len, some lines => some (.rewindLine len lines, .ret)
+    | _, _ => none
   | ["replay", len] => len.toInt?.map fun len => (.replay len, .retBytes)
   | ["rewind", len] => len.toInt?.map fun len => (.rewind len, .ret)
   | ["rfd", len] => len.toInt?.map fun len => (.readToFd len noCap, .retBytes)
@@ -79,12 +87,27 @@ def St.other {α : Type} (s : St α) : Option α := if s.second then s.a else s.
 def St.setCur {α : Type} (s : St α) (x : Option α) : St α := if s.second then { s with b := x } else { s with a := x }
 def St.setOther {α : Type} (s : St α) (x : Option α) : St α := if s.second then { s with a := x } else { s with b := x }
 
-def statM (c : Cbuf) : String := s!" | {c.size} {c.used} {linesUsed c} {reused c}"
-def statS (r : Spec.RFifo) : String := s!" | {r.f.size} {r.f.q.length} {Spec.linesUsed r.f} {r.hist.length}"
+def statM (c : Cbuf) : String := s!" | {c.size} {c.used} {linesUsed c} {reused c} {linesReused c}"
+def statS (r : Spec.RFifo) : String :=
+  s!" | {r.f.size} {r.f.q.length} {Spec.linesUsed r.f} {r.hist.length} {Spec.linesReused r}"
+
+/-- the growth policy a model step runs under: a line annotated with the implementation's own
+    answer (`<op ...> @ <impl-ret> <impl-size>`, the same annotation the spec run gets) makes the
+    model FOLLOW the observed capacity of the buffer written to (`pinPolicy`: admissible for every
+    observation, `Cbuf.pin_admissible`, so the theorems of Props/C13.lean cover the run); an
+    inadmissible observation falls back to the policy of the code as it is and shows as a
+    difference.  Without annotation: the policy of the code as it is. -/
+def polFor (target : Cbuf) (ann : List String) : Policy :=
+  match (ann.drop 1).head?.bind String.toNat? with
+  | some sz => pinPolicy chunkPolicy (target.alloc - target.size) sz
+  | none => chunkPolicy
 
 def stepModel (st : St Cbuf) (line : String) : St Cbuf × String :=
-  match Driver.words line with
+  let ws0 := Driver.words line
+  let ann := (ws0.dropWhile (· ≠ "@")).drop 1
+  match ws0.takeWhile (· ≠ "@") with
   | ["reset"] => ({}, "ok")
+  | ["eintr", _] => (st, "ok")      -- interrupted read()/write() calls are retried: no effect
   | ["sel", i] => ({ st with second := i = "1" }, "ok")
   | ["create", mn, mx, smeta] =>
     match mn.toInt?, mx.toInt?, smeta.toNat? with
@@ -98,7 +121,7 @@ def stepModel (st : St Cbuf) (line : String) : St Cbuf × String :=
       match len.toInt?, st.cur, st.other with
       | some len, some src, some dst =>
         let op : Op2 := if k = "copy" then .copy false len else .move false len
-        let (o, (src', dst')) := stepM2 (src, dst) op
+        let (o, (src', dst')) := stepM2 (src, dst) op (polFor dst ann)
         ((st.setCur (some src')).setOther (some dst'), s!"{o.ret} {o.ndropped}" ++ statM src' ++ statM dst')
       | none, _, _ => (st, "bad-op")
       | _, _, _ => (st, "no-cbuf")
@@ -106,12 +129,14 @@ def stepModel (st : St Cbuf) (line : String) : St Cbuf × String :=
       match st.cur, parseOp [k, len] with
       | none, _ => (st, "no-cbuf")
       | _, none => (st, "bad-op")
-      | some c, some (op, f) => let (o, c') := stepMR c op; (st.setCur (some c'), fmtOut f o ++ statM c')
+      | some c, some (op, f) =>
+        let (o, c') := stepMR c op (polFor c ann); (st.setCur (some c'), fmtOut f o ++ statM c')
   | ws =>
     match st.cur, parseOp ws with
     | none, _ => (st, "no-cbuf")
     | _, none => (st, "bad-op")
-    | some c, some (op, f) => let (o, c') := stepMR c op; (st.setCur (some c'), fmtOut f o ++ statM c')
+    | some c, some (op, f) =>
+      let (o, c') := stepMR c op (polFor c ann); (st.setCur (some c'), fmtOut f o ++ statM c')
 
 /-- spec lines are the op lines annotated by the harness run: `<op ...> @ <impl-ret> <impl-size>` -/
 def stepSpec (st : St Spec.RFifo) (line : String) : St Spec.RFifo × String :=
@@ -122,12 +147,14 @@ def stepSpec (st : St Spec.RFifo) (line : String) : St Spec.RFifo × String :=
   let sz : Nat := ((ann.drop 1).head?.bind String.toNat?).getD 0
   match ops with
   | ["reset"] => ({}, "ok")
+  | ["eintr", _] => (st, "ok")      -- EINTR is not an answer of any call: the property is unaffected
   | ["sel", i] => ({ st with second := i = "1" }, "ok")
   | ["create", mn, mx, _] =>
     match mn.toInt?, mx.toInt? with
     | some mn, some mx =>
       match Spec.create mn mx with
-      | some f => (st.setCur (some { f := f, hist := [] }), "ok" ++ statS { f := f, hist := [] })
+      | some f =>
+        (st.setCur (some { f := f, hist := [], wrapped := false }), "ok" ++ statS { f := f, hist := [], wrapped := false })
       | none => (st.setCur none, "null")
     | _, _ => (st, "bad-op")
   | [k, len] =>
